@@ -111,6 +111,7 @@ def programs(draw):
         lookup = None
     neutrons = draw(st.lists(st.tuples(unit01, unit01).map(list), min_size=40, max_size=40))
     return {
+        "int_pulse": draw(st.sampled_from([False, False, False, True])),
         "pulse": {"tmin": tmin, "tmax": tmin + width, "wmin": wmin, "wmax": wmin + wband},
         "t_unit": draw(st.sampled_from(sorted(T_UNITS))),
         "w_unit": draw(st.sampled_from(sorted(W_UNITS))),
@@ -138,14 +139,32 @@ def build(case):
     p = case["pulse"]
     # stored values in the chosen units; the oracle uses the values converted back to s / angstrom / m
     st_ = {k: p[k] / (T_UNITS[tu] if k[0] == "t" else W_UNITS[wu]) for k in p}
+    b.int_pulse = bool(case.get("int_pulse")) and tu != "s"
+    if b.int_pulse:
+        # whole milliseconds / microseconds and whole wavelength units in integer variables
+        st_["tmin"] = float(round(st_["tmin"]))
+        st_["tmax"] = float(max(round(st_["tmax"]), st_["tmin"] + (0 if p["tmin"] == p["tmax"] else 1)))
+        st_["wmin"] = float(max(round(st_["wmin"]), 1))
+        st_["wmax"] = float(max(round(st_["wmax"]), st_["wmin"] + 1))
+        mk = lambda v, u: sc.scalar(int(v), unit=u, dtype="int64")  # noqa: E731
+    else:
+        mk = lambda v, u: sc.scalar(v, unit=u)  # noqa: E731
     b.seq0 = cc.FrameSequence.from_source_pulse(
-        time_min=sc.scalar(st_["tmin"], unit=tu), time_max=sc.scalar(st_["tmax"], unit=tu),
-        wavelength_min=sc.scalar(st_["wmin"], unit=wu), wavelength_max=sc.scalar(st_["wmax"], unit=wu))
+        time_min=mk(st_["tmin"], tu), time_max=mk(st_["tmax"], tu),
+        wavelength_min=mk(st_["wmin"], wu), wavelength_max=mk(st_["wmax"], wu))
     src = b.seq0[0].subframes[0]
     b.src_t = np.array(src.time.values, dtype=float)        # s
     b.src_w = np.array(src.wavelength.values, dtype=float)  # angstrom
-    b.tmin, b.tmax = float(b.src_t.min()), float(b.src_t.max())
-    b.wmin, b.wmax = float(b.src_w.min()), float(b.src_w.max())
+    # the pulse rectangle from the stored values and exact unit factors (not from the package)
+    b.tmin, b.tmax = st_["tmin"] * T_UNITS[tu], st_["tmax"] * T_UNITS[tu]
+    b.wmin, b.wmax = st_["wmin"] * W_UNITS[wu], st_["wmax"] * W_UNITS[wu]
+    want_t = [b.tmin, b.tmax, b.tmax, b.tmin]
+    want_w = [b.wmin, b.wmin, b.wmax, b.wmax]
+    if (len(b.src_t) != 4 or any(abs(g - w) > 1e-12 * max(abs(w), 1e-3) for g, w in zip(b.src_t, want_t, strict=True))
+            or any(abs(g - w) > 1e-12 * abs(w) for g, w in zip(b.src_w, want_w, strict=True))):
+        raise Violation("source-pulse", f"from_source_pulse({st_['tmin']!r}..{st_['tmax']!r} {tu}, {st_['wmin']!r}..{st_['wmax']!r} {wu}"
+                                        f"{', integer variables' if b.int_pulse else ''}) gives vertices t={b.src_t.tolist()} s, "
+                                        f"lambda={b.src_w.tolist()} A, expected t={want_t}, lambda={want_w}")
     a = alpha()
     b.choppers = []
     b.spec = []  # (distance in m, opens in s, closes in s)
@@ -307,6 +326,8 @@ def base_labels(case, seq):
             f"nframes:{min(len(seq), 8)}"]
     if case["pulse"]["tmin"] == case["pulse"]["tmax"]:
         labs.append("zero-width-pulse")
+    if case.get("int_pulse") and case["t_unit"] != "s":
+        labs.append("int-pulse")
     if any("vertex" in e for c in case["choppers"] for w in c["windows"] for e in w):
         labs.append("window-on-vertex")
     ds = [c["distance"] for c in case["choppers"]]
